@@ -81,6 +81,73 @@ def run(chk, F, tier):
                   "didOpen/didClose" % h.split("::")[-1], d.loc(spawned.get(h)),
                   witness={"handler": h, "writers_reached": sorted(cg.reachable([h, h + '::{closure#0}']) & writers)},
                   sample={"rule": "R27", "handler": h.split("::")[-1], "dispatch": "inline", "verdict": "ordered"})
+    # R27d: a document-text handler applies its analysis mutation inline: nothing it hands to tokio::spawn takes the analysis write lock
+    chk.rule("R27d", "no future spawned from a document-text handler (or from emmylua_ls code it calls) takes the write lock of the analysis: "
+                     "the handler's effect on the analysis is applied before the next notification is dispatched")
+    AW = "emmylua_code_analysis::EmmyLuaAnalysis"
+
+    def takes_analysis_write(bid):
+        b2 = F.bodies.get(bid)
+        if b2 is None:
+            return None
+        for bb, c in b2.calls():
+            n = name(c)
+            if "RwLock" in n and n.endswith("::write") and any(len(b2.ty(g)) > 3 and b2.ty(g)[3] == AW for g in c.get("ga", [])):
+                return c["l"]
+            if n.endswith(("RwLock::<T>::blocking_write", "RwLock::<T>::try_write", "RwLock::<T>::write_owned")) and \
+                    any(len(b2.ty(g)) > 3 and b2.ty(g)[3] == AW for g in c.get("ga", [])):
+                return c["l"]
+        return None
+    nspawn = 0
+    for h in H:
+        reach = {x for x in cg.reachable([h, h + "::{closure#0}"]) if x in F.bodies and F.bodies[x].crate == LS}
+        for x in sorted(reach):
+            bx = F.bodies[x]
+            for bb, c in bx.calls():
+                if name(c) not in ("tokio::task::spawn::spawn", "tokio::spawn", "tokio::task::spawn_local", "tokio::task::local::spawn_local"):
+                    continue
+                for gi in c.get("ga", []):
+                    t = bx.ty(gi)
+                    if t[2] not in ("coroutine", "closure"):
+                        continue
+                    nspawn += 1
+                    fut = t[3]
+                    hit = None
+                    for y in sorted(cg.reachable([fut])):
+                        if y in F.bodies and F.bodies[y].crate == LS:
+                            l = takes_analysis_write(y)
+                            if l is not None:
+                                hit = (y, l)
+                                break
+                    chk.check(hit is None, "R27d", "spawned-write:%s:%s" % (h.split("::")[-1], fut.replace(LS + "::", "")),
+                              "%s hands a future to tokio::spawn (in %s) that takes the analysis write lock (%s): that part of the notification's "
+                              "effect is applied in no defined order relative to the next didOpen/didChange/didClose of the same document"
+                              % (h.split("::")[-1], x.replace(LS + "::", ""), hit[0].replace(LS + "::", "") if hit else ""),
+                              bx.loc(c["l"]), witness={"handler": h, "spawned": fut, "writer": hit[0] if hit else None},
+                              sample={"rule": "R27d", "handler": h.split("::")[-1], "spawned": fut.split("::")[-2:], "verdict": "does not write the analysis"})
+    chk.unit("futures spawned from document-text handlers", nspawn)
+    # R27e: the watcher's "is this file open in the editor?" test and its update of the analysis are one critical section
+    import cfgutil as _cfg
+    chk.rule("R27e", "on_did_change_watched_files tests is_open_file only while it holds the analysis write lock it later updates under (one "
+                     "acquisition, dominating every test): didOpen/didChange, which take the same lock, cannot slip between test and update")
+    wh = F.bodies.get(LS + "::handlers::text_document::watched_file_handler::on_did_change_watched_files::{closure#0}")
+    if wh is None:
+        raise RuleBroken("on_did_change_watched_files coroutine not found")
+    acq = [bb for bb, c in wh.calls() if "RwLock" in name(c) and name(c).endswith("::write")
+           and any(len(wh.ty(g)) > 3 and wh.ty(g)[3] == AW for g in c.get("ga", []))]
+    tests = [(bb, c["l"]) for bb, c in wh.calls() if name(c).endswith("WorkspaceManager::is_open_file")]
+    upd = [bb for bb, c in wh.calls() if name(c).endswith("EmmyLuaAnalysis::update_files_by_uri")]
+    idom = _cfg.dominators(wh.succ_map(), 0)
+    ok = len(acq) == 1 and tests and upd and all(_cfg.dominates(idom, acq[0], t) for t, _ in tests) and all(_cfg.dominates(idom, acq[0], u) for u in upd)
+    # the open-file test must live in this body (not be moved into a helper that runs before the lock is taken)
+    chk.check(bool(ok), "R27e", "watched-files:test-under-write-lock",
+              "on_did_change_watched_files %s: between the test and the update a didOpen/didChange of that file can be applied, after which "
+              "the stale text read from disk overwrites the editor's text in the analysis" %
+              ("no longer tests is_open_file in the handler body" if not tests else
+               "acquires the analysis write lock %d times" % len(acq) if len(acq) != 1 else
+               "tests is_open_file (or updates) on a path that has not taken the analysis write lock yet"),
+              wh.loc(tests[0][1] if tests else None), witness={"write_acquisitions": len(acq), "tests": [l for _, l in tests]},
+              sample={"rule": "R27e", "fn": "on_did_change_watched_files", "verdict": "test and update under one write-lock acquisition"})
     chk.explanation = ("Write-set analysis finds the mutators of open_file_texts, the call graph finds the handlers that reach "
                        "them, the dispatch coroutine's MIR tells inline await from tokio::spawn.")
 
